@@ -2825,6 +2825,7 @@ impl ReadTransaction {
                 fixed_key_size,
                 fixed_value_size,
                 PageResolver::new(self.mem.clone()),
+                self.tree.transaction_guard().clone(),
             )),
             InternalTableDefinition::Multimap { .. } => unreachable!(),
         }
@@ -2884,6 +2885,7 @@ impl ReadTransaction {
                 fixed_key_size,
                 fixed_value_size,
                 PageResolver::new(self.mem.clone()),
+                self.tree.transaction_guard().clone(),
             )),
         }
     }
